@@ -29,10 +29,7 @@ const (
 var UTC = time.UTC
 
 func Now() Time {
-	if !vrt.Active() {
-		return time.Now()
-	}
-	return vrt.Now()
+	return vrt.Now() // pass-through: the real clock, or vrt.FakeClock when a sequential engine owns time
 }
 
 func Since(t Time) Duration { return Now().Sub(t) }
